@@ -162,6 +162,28 @@ def derived(check, tier, seed):
     s.done()
 
 
+def long_inputs(check, tier):
+    """size is part of "every str or FmtStr ... every columns >= 1": words that need thousands of pieces, thousands of words"""
+    s = Suite(check, "C16.long", "a 2400- / 5000-character word at 1, 2 and 7 columns (alone, after and before short words, formatted in two "
+              "runs), a 90 000-character word at 80 columns, 3000 one-letter words at 1, 2 and 80 columns: the greedy-wrap oracle",
+              bound="<= 90 000 characters")
+    cases = []
+    for n in (2400, 5000):
+        for columns in (1, 2, 7):
+            cases += [("x" * n, columns), ("ab " + "y" * n + " cd", columns)]
+        cases.append((fmtstr("p" * (n // 2), "red") + fmtstr("q" * (n // 2), "blue"), 2))
+    cases.append(("z" * 90000 + " tail", 80))
+    for columns in (1, 2, 80):
+        cases.append((" ".join("w" for _ in range(3000)), columns))
+    for v, columns in cases:
+        s.case((len(v), columns, str(v)[:5]), sample=dict(length=len(v), columns=columns) if len(s.samples) < 2 else None)
+        d = judge(v, columns)
+        if d:
+            s.fail("C16.linesplit.long", dict(text=str(v)[:30] + f"...({len(v)} characters)", columns=columns), d[:300])
+    s.done()
+
+
 def run(check, tier, seed):
     bounded(check, tier, seed)
     derived(check, tier, seed)
+    long_inputs(check, tier)
